@@ -201,6 +201,8 @@ class TestCasePostProcessor(cv.ChromosomeVisitor):
     ) -> None:
         for test_case_chromosome in chromosome.test_case_chromosomes:
             test_case_chromosome.accept(self)
+        # The test cases were modified in place: cached suite-level values are stale.
+        chromosome.changed = True
 
     def visit_test_case_chromosome(  # noqa: D102
         self, chromosome: tcc.TestCaseChromosome
